@@ -800,3 +800,174 @@ def fold_union_write(repo: Repo) -> dict | None:
         return None
     except (TypeError, KeyError, IndexError, ValueError, AttributeError):
         return None
+
+
+class _FalsySym(Sym):
+    """A type object that is falsy (len(T) == 0: void, an empty structure) - truthiness must never stand in for 'is registered'."""
+
+    def __bool__(self) -> bool:
+        return False
+
+
+def fold_add_type(repo: Repo) -> dict | None:
+    """cstruct.add_type over (name known?, same target?, replace?): a name is never silently re-bound to another type."""
+    fi = repo.func("cstruct.py", "cstruct.add_type")
+    t1, t2, t0 = Sym("type-one"), Sym("type-two"), _FalsySym("zero-sized-type")
+    out: dict = {"cases": 0, "bad": []}
+    try:
+        for label, existing, new, replace, want in (
+                ("a zero-sized (falsy) type registered, another type", t0, t2, False, "ValueError"), ("a zero-sized (falsy) type again", t0, t0, False, "stored"),
+                ("new name", None, t1, False, "stored"), ("same type again", t1, t1, False, "stored"), ("another type, replace=False", t1, t2, False, "ValueError"),
+                ("another type, replace=True", t1, t2, True, "stored"), ("alias string to the same type", "one", t1, False, "stored"),
+                ("alias string to another type", "one", t2, False, "ValueError")):
+            typedefs: dict = {"one": t1}
+            if existing is not None:
+                typedefs["x"] = existing
+
+            def resolve(n, typedefs=typedefs):
+                while isinstance(n, str):
+                    n = typedefs[n]
+                return n
+
+            cs = Sym("cs", {"typedefs": typedefs}, {"resolve": Host(resolve)})
+            args = [cs, "x", new] + ([True] if replace else [])
+            try:
+                Evaluator({}, steps=500).call_user(UserFunc(fi.node), args, {})
+                got = "stored" if typedefs.get("x") is new else f"not stored ({typedefs.get('x')})"
+            except Raised as e:
+                got = str(e).split("(")[0].split(":")[0]
+            out["cases"] += 1
+            if got != want:
+                out["bad"].append((label, got, want))
+        return out
+    except Refused:
+        return None
+    except (TypeError, KeyError, IndexError, ValueError, AttributeError):
+        return None
+
+
+def fold_update_fields(repo: Repo) -> dict | None:
+    """StructureMetaType._update_fields over (kind of class, compiled?, field list): the class dict it returns holds every derived attribute,
+    computed from the *new* field list; the reader is recompiled only after the offsets were calculated, with the class's alignment mode, and a
+    failing recompilation falls back to the interpreted reader."""
+    fi = repo.func("types/structure.py", "StructureMetaType._update_fields")
+    calc = repo.func("types/structure.py", "StructureMetaType._calculate_size_and_offsets")
+    out: dict = {"cases": 0, "bad": []}
+    struct_meta, union_meta, type_marker = Sym("StructureMetaType"), Sym("UnionMetaType"), Sym("type")
+
+    def field(name, size, anon_members=None):
+        t_attrs: dict[str, Any] = {"size": size, "alignment": size or 1}
+        if anon_members is not None:
+            t_attrs["is_struct"] = True
+            t_attrs["fields"] = {m: Sym(f"member:{m}", {"name": m, "_name": m}) for m in anon_members}
+        return Sym(f"field:{name}", {"_name": name if anon_members is None else "__anon__", "name": name if anon_members is None else None,
+                                     "type": Sym(f"type:{name}", t_attrs), "bits": None, "offset": None, "alignment": size or 1})
+
+    lists = {
+        "two scalars": lambda: [field("a", 1), field("b", 4)],
+        "scalar, anonymous struct {x, y}, scalar": lambda: [field("a", 1), field("anon", 2, ["x", "y"]), field("b", 4)],
+        "two '_' members": lambda: [field("_", 1), field("_", 1), field("c", 2)],
+        "duplicate name": lambda: [field("a", 1), field("a", 4)],
+        "no fields": lambda: [],
+    }
+    try:
+        for kind in ("metaclass (class creation)", "structure class (commit)", "union class (commit)", "union metaclass (class creation)"):
+            for compiled in ((False,) if "metaclass" in kind else (False, True, "fails")):
+                for label, make in lists.items():
+                    fields = make()
+                    events: list = []
+                    is_union = "union" in kind
+                    is_meta = "metaclass" in kind
+
+                    def calc_host(*a, fields=fields, events=events):
+                        args = [x for x in a if not (isinstance(x, Sym) and x.label.startswith("cls"))]
+                        fl, al = args[0], args[1] if len(args) > 1 else False
+                        off = 0
+                        for f in fl:
+                            f.attrs["offset"] = off
+                            off += f.attrs["type"].attrs["size"]
+                        events.append(("offsets", fl is fields, al))
+                        return (off, 4)
+
+                    def compile_read(fl, name=None, align=None, fields=fields, events=events):
+                        events.append(("compile", fl is fields, [f.attrs["offset"] for f in fl], align))
+                        if compiled == "fails":
+                            raise Raised("TypeError('unsupported')")
+                        return "<compiled reader>"
+
+                    cls = Sym("cls:S", {"__compiled__": bool(compiled), "__align__": "<the class's align flag>", "cs": Sym("cs"), "__name__": "S", "kind": kind},
+                              {"_calculate_size_and_offsets": Host(calc_host)})
+
+                    def issub(c, k):
+                        if k is type_marker:
+                            return is_meta
+                        if k is union_meta:
+                            return is_meta and is_union
+                        raise Refused("issubclass against another class")
+
+                    def isinst(o, k):
+                        if k is union_meta:
+                            return (not is_meta) and is_union and o is cls
+                        if k is struct_meta:
+                            return isinstance(o, Sym) and bool(o.attrs.get("is_struct"))
+                        raise Refused("isinstance against another class")
+
+                    gen = {n: Host(lambda names, n=n: (n, list(names))) for n in ("_generate__bool__", "_generate__eq__", "_generate__hash__")}
+                    gen.update({n: Host(lambda fl, n=n: (n, [f.attrs["_name"] for f in fl])) for n in ("_generate_structure__init__", "_generate_union__init__")})
+                    compiler = Sym("compiler", {}, {"Compiler": Host(lambda cs: Sym("Compiler", {}, {"compile_read": Host(compile_read)}))})
+                    env = {**{q: UserFunc(f_.node) for q, f_ in fi.module.functions.items() if "." not in q and not q.startswith(("_generate", "_make", "_codegen", "_patch"))},
+                           "issubclass": Host(issub), "isinstance": Host(isinst), "type": type_marker, "UnionMetaType": union_meta, "StructureMetaType": struct_meta,
+                           "Union": Sym("Union", {"__eq__": "<Union.__eq__>"}), "Structure": Sym("Structure", {"_read": Sym("read", {"__func__": "<Structure._read>"})}),
+                           "classmethod": Host(lambda f: ("classmethod", f)), "property": Host(lambda g_, s_: ("property", g_, s_)),
+                           "attrgetter": Host(lambda a: ("get", a)), "attrsetter": Host(lambda a: ("set", a)), "__imports__": {"compiler": compiler}, **gen}
+                    out["cases"] += 1
+                    case = f"{kind}, compiled={compiled}, {label}"
+                    try:
+                        cd = Evaluator(env, steps=8000).call_user(UserFunc(fi.node), [cls, fields, "<align argument>"], {})
+                    except Raised as e:
+                        if label == "duplicate name" and str(e).startswith("ValueError"):
+                            continue
+                        out["bad"].append((case, f"raised {e}", "a class dict"))
+                        continue
+                    if label == "duplicate name":
+                        out["bad"].append((case, "accepted", "ValueError for the duplicate field name"))
+                        continue
+                    folded = [m for f in fields for m in (list(f.attrs["type"].attrs["fields"]) if f.attrs["type"].attrs.get("is_struct") else [f.attrs["_name"]])]
+                    folded = list(dict.fromkeys(folded))
+                    raw = list(dict.fromkeys(f.attrs["_name"] for f in fields))
+                    want = {
+                        "fields": folded, "lookup": raw, "__fields__": "same list", "__bool__": ("_generate__bool__", folded), "__hash__": ("_generate__hash__", folded),
+                        "__eq__": "<Union.__eq__>" if is_union else ("_generate__eq__", folded),
+                        "__init__": ("_generate_union__init__" if is_union else "_generate_structure__init__", raw),
+                        "size": sum(f.attrs["type"].attrs["size"] for f in fields), "alignment": 4, "dynamic": False,
+                    }
+                    got = {k: cd.get(k, "<missing>") for k in want}
+                    got["fields"] = list(got["fields"]) if isinstance(got["fields"], dict) else got["fields"]
+                    got["lookup"] = list(got["lookup"]) if isinstance(got["lookup"], dict) else got["lookup"]
+                    got["__fields__"] = "same list" if cd.get("__fields__") is fields else "another object"
+                    if compiled:
+                        want["_read"] = "<compiled reader>" if compiled is True else ("classmethod", "<Structure._read>")
+                        want["__compiled__"] = compiled is True
+                        got["_read"], got["__compiled__"] = cd.get("_read", "<missing>"), cd.get("__compiled__", "<missing>")
+                    diff = {k: (got[k], want[k]) for k in want if got[k] != want[k]}
+                    if diff:
+                        out["bad"].append((case, f"class dict differs (got, expected): {diff}", ""))
+                        continue
+                    for f in fields:
+                        if f.attrs["type"].attrs.get("is_struct") and not all(m in cd for m in f.attrs["type"].attrs["fields"]):
+                            out["bad"].append((case, "no accessor properties for the members of the anonymous structure", ""))
+                    offs = [e for e in events if e[0] == "offsets"]
+                    comp = [e for e in events if e[0] == "compile"]
+                    if len(offs) != 1 or not offs[0][1] or offs[0][2] != "<align argument>":
+                        out["bad"].append((case, f"offset calculation calls: {offs}", "exactly one, with the new field list and the align argument"))
+                    if compiled and (len(comp) != 1 or not comp[0][1] or any(o is None for o in comp[0][2]) or comp[0][3] != "<the class's align flag>"
+                                     or events.index(comp[0]) < events.index(offs[0])):
+                        out["bad"].append((case, f"recompilation: {comp} (events {[(e[0]) for e in events]})",
+                                           "once, with the new field list, after the offsets were calculated, with align=cls.__align__"))
+                    if not compiled and comp:
+                        out["bad"].append((case, "a structure that was not compiled is compiled by an update", ""))
+        return out
+    except Refused:
+        return None
+    except (TypeError, KeyError, IndexError, ValueError, AttributeError):
+        return None
